@@ -218,7 +218,15 @@ fn emit_line(line: &str) -> String {
         None => return "ERRPROG BADUTF8".into(),
     };
     let argsrcs: Vec<String> = parts.filter_map(text_of).collect();
-    let sess = match Session::new(None) {
+    // optional first line `//#inputs <json object>`: the session's inputs record (default: empty)
+    let (inputs_json, prog) = match prog.strip_prefix("//#inputs ") {
+        Some(rest) => match rest.split_once('\n') {
+            Some((j, p)) => (Some(j.to_string()), p.to_string()),
+            None => (Some(rest.to_string()), String::new()),
+        },
+        None => (None, prog),
+    };
+    let sess = match Session::new(inputs_json.as_deref()) {
         Ok(s) => s,
         Err(_) => return "ERRPROG SESSION".into(),
     };
@@ -233,6 +241,12 @@ fn emit_line(line: &str) -> String {
     let mut store: Vec<Option<String>> = Vec::new();
     let term = coq_value(&fv, &sess.heap.borrow(), &mut store);
     out.push(format!("VAL {} {}", coq_store(&store), term));
+    if inputs_json.is_some()
+        && let Some(iv) = sess.bindings.get("inputs")
+    {
+        let mut st0: Vec<Option<String>> = Vec::new();
+        out.push(format!("INP {}", coq_value(&iv, &sess.heap.borrow(), &mut st0)));
+    }
     let portable = validate_portable_value(&fv, &sess.heap.borrow(), &sess.bindings).is_ok();
     out.push(format!("PORT {}", if portable { 1 } else { 0 }));
     let src1 = match function_source(&fv, &sess.heap.borrow()) {
